@@ -4,7 +4,7 @@
    `ord n` is the iteration order of c.fanin(n) (PYTHONHASHSEED); every statement quantifies over it.
    `closed` is the networkx invariant that edge endpoints are nodes. *)
 From stdpp Require Import strings gmap sets.
-From CG Require Import Base.Oracle Model.Lint Model.Sat Proofs.SatProofs Gen.Gen_cnf.
+From CG Require Import Base.Oracle Model.Lint Model.Sat Proofs.SatProofs Proofs.SatSolver Gen.Gen_cnf.
 
 (* obligation on the regenerated tables: every arm of the if/elif chain serves the documented types and its clause
    templates mean the documented gate equation (semantic check over all role valuations; and/nand/or/nor: Tmpl.tmpl_ok) *)
@@ -63,3 +63,7 @@ Proof.
 Qed.
 Example C01_ex_cnf : ∃ F, cnf ex_c (default_ord (c_g ex_c)) = Ok F ∧ length F = 20 ∧ sat (ext (λ n, bool_decide (n ∈ ["b"; "k"; "ff.q"; "o"; "g"]))) F.
 Proof. eexists. split; [vm_compute; reflexivity|]. split; [reflexivity|]. vm_compute. reflexivity. Qed.
+
+(* the solver hypotheses are satisfiable: exhaustive search over the variables of the formula is sound and complete *)
+Example C01_solver_exists : solver_ok brute.
+Proof. split; [exact brute_sound|exact brute_complete]. Qed.
